@@ -54,7 +54,7 @@ class C13(Prop):
                    '(element identity and order, Q by content incl. sparse, y, noise, proj), the structural-zero dict and the options dict (apart '
                    'from its callback key, see assumptions) are unchanged.  (callback) a callback passed to one call is not invoked by a later call '
                    'that passes none, on the same or on another estimator (shared default options dict).  (warm) with warm_start=True and many '
-                   'iterations, estimation over a grown / changed list reaches the cold-start optimum: |L_warm - L_cold| <= 1e-3*(L_uniform - '
+                   'iterations (also with structural zeros over a shrinking list, where no previous parameter survives), estimation over a grown / changed list reaches the cold-start optimum and keeps the declared zero cells empty: |L_warm - L_cold| <= 1e-3*(L_uniform - '
                    'L_cold) + 1e-9*(1 + L_cold), losses recomputed by the harness from model.project answers.')
     rule = ('seeded random cases: kind history (2..4 steps; each step = structure, query kinds, total, engine, options, callback), kind callback, '
             'kind warm (2..3 steps, one engine, iters 1000 quick / 3000 thorough); domains of 2..4 attributes with sizes 2..4 (<= 3 attributes for kind warm); '
@@ -110,6 +110,25 @@ class C13(Prop):
                         m['noise'] = float(rng.choice([1.0, 2.0, 5.0]))
                     steps.append(s)
                 yield dict(kind='warm', dom=dom, steps=steps, iters=warm_iters, zeros=[], truth='dirichlet', fresh_truth=bool(rng.rand() < 0.5), seed=nxt())
+        # warm start with structural zeros over a SHRINKING list: the clique that held the zero pattern disappears from the model, so
+        # nothing of the previous parameters is carried over and the zeros must come from the specification again
+        for i in range(1 if tier == 'quick' else 4):
+            for eng in ENGINES:
+                dom = MC.rand_dom(rng, 3, lo=2, hi=3)
+                attrs = MC.dom_attrs(dom)
+                pair = [attrs[0], attrs[1]]
+                zs = []
+                for _ in range(20):
+                    zs = [[pair, MC.rand_zero_cells(rng, dom, pair, 'few')]]
+                    if (~MC.zero_mask(dom, zs)).sum() >= 2:
+                        break
+                    zs = [[pair, [[0] * len(pair)]]]
+                s1 = dict(ms=MC.rand_specs(rng, [attrs], plain=True), engine=eng, options=None, callback=False, total=500.0)
+                s2 = dict(ms=MC.rand_specs(rng, [[a] for a in attrs], plain=True), engine=eng, options=None, callback=False, total=500.0)
+                for st_ in (s1, s2):
+                    for m in st_['ms']:
+                        m['noise'] = float(rng.choice([1.0, 2.0, 5.0]))
+                yield dict(kind='warm', dom=dom, steps=[s1, s2], iters=warm_iters, zeros=zs, truth='dirichlet', fresh_truth=True, seed=nxt())
         # default-options callback leak
         for eng in ENGINES:
             for _ in range(2 if tier == 'quick' else 8):
@@ -281,7 +300,8 @@ class C13(Prop):
         import numpy as np
         dom = case['dom']
         eng = case['steps'][0]['engine']
-        warm = FactoredInference(domain, iters=case['iters'], warm_start=True)
+        zeros = MC.zeros_dict(case['zeros']) if case.get('zeros') else {}
+        warm = FactoredInference(domain, iters=case['iters'], warm_start=True, structural_zeros=copy.deepcopy(zeros))
         truth = None
         last = None
         for step in case['steps']:
@@ -290,15 +310,24 @@ class C13(Prop):
             mw = warm.estimate(ms, total=step['total'], engine=eng)
             last = (ms, dense, step)
         ms, dense, step = last
-        mc = FactoredInference(domain, iters=case['iters'], warm_start=False).estimate(copy.deepcopy(ms), total=step['total'], engine=eng)
+        mc = FactoredInference(domain, iters=case['iters'], warm_start=False, structural_zeros=copy.deepcopy(zeros)).estimate(copy.deepcopy(ms), total=step['total'], engine=eng)
         total = float(mc.total)
+        extra = []
+        if zeros:
+            # both optima live on the declared support: the warm-started model puts no more mass on impossible cells than the cold one
+            zmask = MC.zero_mask(dom, case['zeros'])
+            full = MC.dom_attrs(dom)
+            zw = float(MC.factor_array(mw.project(full), full)[0][zmask].sum())
+            zc = float(MC.factor_array(mc.project(full), full)[0][zmask].sum())
+            extra = [('warm-start-keeps-structural-zeros', zw <= max(1e-6 * total, 10 * zc),
+                      dict(mass_on_declared_zero_cells_warm=zw, mass_on_declared_zero_cells_cold=zc, total=total, engine=eng))]
 
         def ans(m):
             return lambda proj: MC.factor_array(m.project(proj), proj)[0]
         Lw, Lc = MC.loss_of_answers(ans(mw), dense), MC.loss_of_answers(ans(mc), dense)
         Lu = MC.loss_of_answers(lambda proj: np.full(MC.sizes(dom, proj), total / MC.ncells(dom, proj)), dense)
         tol = 1e-3 * max(Lu - Lc, 0.0) + 1e-9 * (1 + abs(Lc))
-        return [('warm-start-reaches-cold-start-optimum', float(mw.total) == total and abs(Lw - Lc) <= tol,
+        return extra + [('warm-start-reaches-cold-start-optimum', float(mw.total) == total and abs(Lw - Lc) <= tol,
                  dict(loss_warm=Lw, loss_cold=Lc, loss_uniform=Lu, tolerance=tol, engine=eng, iters=case['iters'], warm_total=float(mw.total), cold_total=total))]
 
 
